@@ -207,7 +207,7 @@ class Engine:
             except Infeasible:
                 self.stats['infeasible'] += 1
             except Budget as b:
-                results.append(Path('budget', None, list(self.pc), self.events, list(self.decisions), msg=str(b), where=self.where(), notes=self.notes))
+                results.append(Path('budget', None, list(self.pc), self.events, list(self.decisions), msg=str(b), where=getattr(b, 'mir_where', None) or self.where(), notes=self.notes))
         return results
 
     def sub_explore(self, fn):
